@@ -142,14 +142,23 @@ Definition mro_of (e : errk) : list string :=
   end%string.
 
 (* ---------------------------------------------------------------- metadata resolution *)
+(* _recover_version_from_files: list_files("metadata"), then the choice among the listed files (C10's subject, here
+   [recovered E]).  A listing that fails propagates (it used to be swallowed into "no metadata"). *)
+Definition st_list (E : env) (st : store) (r : nat) : M (option key) :=
+  match st METADIR with
+  | Flaky s _ => if site_eqb (OpList, r) s then (Err EIO, [(METADIR, (OpList, r))])
+                 else (Ok (recovered E), [(METADIR, (OpList, r))])
+  | _ => (Ok (recovered E), [(METADIR, (OpList, r))])
+  end.
+
 (* refresh(): r is the number of refreshes already made by this API call *)
 Definition resolve (E : env) (st : store) (r : nat) : M (option meta) :=
   ex <- st_exists st HINT (OpExists, r) ;;
   hinted <- (if ex then b <- st_get st HINT (OpRead, r) ;; ret (parse_hint E b) else ret None) ;;
   target <- match hinted with
             | Some mk => ex2 <- st_exists st mk (OpExists, r) ;;
-                         if ex2 then ret (Some mk) else (Ok (recovered E), [(METADIR, (OpList, r))])
-            | None => (Ok (recovered E), [(METADIR, (OpList, r))])
+                         if ex2 then ret (Some mk) else st_list E st r
+            | None => st_list E st r
             end ;;
   match target with
   | None => ret None
